@@ -1,6 +1,6 @@
 #!/bin/sh
 # re-runs every stored seeded change against the current /repo HEAD: does the patch still apply, and is it still caught?
-cd /verif
+cd ${SWEEP_DIR:-/verif}
 for d in seeded/*/; do
   id=$(basename $d); prop=${id%%-*}
   WT=/tmp/wt-sweep-$$
